@@ -510,7 +510,16 @@ impl Prop for C15 {
                     12 => Op::BulkSearch((0..1 + t.below(4)).map(|_| gen_sreq(&mut t)).collect()),
                     13 => Op::Flush,
                     14 => Op::Restart { kill: t.chance(128) },
-                    15 => Op::SearchBurst { req: gen_sreq(&mut t), n: 3 + t.below(6) as u8 },
+                    15 => {
+                        let mut req = gen_sreq(&mut t);
+                        let n = 3 + t.below(6) as u8;
+                        // one burst in three at the largest valid k (filter oversampling then
+                        // reaches the engine's own limits)
+                        if t.chance(85) {
+                            req.k = 1000;
+                        }
+                        Op::SearchBurst { req, n }
+                    }
                     _ => Op::BatchDeleteLong { pad: t.pick(&[511u16, 512, 513, 600, 1024, 3000, 9990]), ids: (0..1 + t.below(4)).map(|_| gen_id(&mut t)).collect() },
                 }
             })
